@@ -759,7 +759,7 @@ func genCase(rt *rapid.T) batCase {
 
 func TestBatcher(t *testing.T) {
 	sec := vk.Sec("Batcher")
-	vk.Check(t, 4000, 300000, func(rt *rapid.T) {
+	vk.Check(t, 6000, 1500000, func(rt *rapid.T) {
 		c := genCase(rt)
 		out, err := runBat(t, c)
 		if err != nil {
